@@ -670,6 +670,18 @@ def _shared_member_guard_shape(model, nf, guards):
                     walks_mro = True
         if not walks_mro:
             return g.stmt, "the re-use test looks at what the bases resolve `%s` to, not at every class they inherit from: a member re-used from an ancestor past an intermediate class that overrides it (`f = Grandparent.f`) is not recognised, the merge runs on the checker shared with that ancestor and changes the ancestor's own contracts" % nf.key_p
+        # within one comprehension the member is looked up on one class: `isinstance(getattr(klass, key), property) and
+        # func in (getattr(klass, key).fget, getattr(base, key).fset, ...)` compares with accessors of another class
+        for e in exprs:
+            for comp in ast.walk(e):
+                if not isinstance(comp, (ast.GeneratorExp, ast.ListComp, ast.SetComp)):
+                    continue
+                inner = set(id(x) for c_ in ast.walk(comp) if c_ is not comp and isinstance(c_, (ast.GeneratorExp, ast.ListComp, ast.SetComp, ast.DictComp)) for x in ast.walk(c_))
+                looked = [x for x in ast.walk(comp.elt) if id(x) not in inner and any(x is m_ for m_ in mro) and isinstance(x.args[0], ast.Name)]
+                objs = sorted(set(x.args[0].id for x in looked))
+                targets = set(t_.id for gen in comp.generators for t_ in ast.walk(gen.target) if isinstance(t_, ast.Name))
+                if len(objs) > 1 and set(objs) <= targets:
+                    return g.stmt, "the re-use test looks `%s` up on different classes in one and the same comparison (%s): the accessors compared are not those of the class whose member was found to be a property, so a re-used accessor of an ancestor is not recognised (or one is read from a class where the member is something else)" % (nf.key_p, ", ".join("getattr(%s, %s)" % (o, nf.key_p) for o in objs))
         # one base sharing the object is enough (the other bases of a multiple inheritance need not have the member)
         for e in exprs:
             for sub in ast.walk(e):
@@ -880,3 +892,73 @@ def group_copies(run, model, rule):
         ok = copied_in_collapse or not shared
         where = shared[0] if shared else None
         run.check(ok, rule, nf.fi.qual, "the inherited precondition groups are copied before they become part of the new function's contract", "the precondition groups collected from a base (`%s`) are put into the new function's list as the very same list objects: `add_precondition_to_checker` appends to the first group in place, so a `require` applied to the derived function after the class was created changes the BASE's contract too" % (first_line(where.stmt) if where is not None else ""), nf.fi.loc(where) if where is not None else nf.fi.loc(), None, first_line(where.stmt) if where is not None else None)
+
+
+def per_member_state(run, model, rule="C04.per-member-state"):
+    """What the loop over the bases accumulates for one member -- flags such as "a base provides it" / "a base accepts
+    everything", counters, lists -- starts afresh for every member: in the property pass getter, setter and deleter
+    are handled one after the other by an enclosing loop, and a value left over from the previous accessor decides
+    for the next one (an accept-all getter would wipe the inherited preconditions of the setter)."""
+    for kind, nf in namespace_fns(model).items():
+        flow = nf.flow
+        run.saw(flow)
+        if len(nf.base_loops) != 1:
+            continue
+        inner = nf.base_loops[0]
+        inner_ids = nf.lexical_body(inner)
+        outers = [h for h in nf.all_loops if h is not inner and inner.id in nf.lexical_body(h)]
+        # plain locals assigned inside the loop over the bases
+        assigned = {}
+        for n in nf.cfg.nodes:
+            if n.id in inner_ids and n.kind == "stmt" and isinstance(n.ast, (ast.Assign, ast.AugAssign)):
+                tgs = n.ast.targets if isinstance(n.ast, ast.Assign) else [n.ast.target]
+                for tg in tgs:
+                    if isinstance(tg, ast.Name):
+                        assigned.setdefault(tg.id, n)
+        it_nodes = [p for k, p in inner.pred if p.kind == "iter"]
+        bad = None
+        if outers and it_nodes:
+            outer = outers[0]
+            lo = outer.stmt.lineno
+            hi = max(getattr(x, "end_lineno", lo) or lo for x in ast.walk(outer.stmt))
+            for name in sorted(assigned):
+                # is the value *live* where the loop over the bases begins -- can a read be reached from there before
+                # the name is set again?  (temporaries of one base are set before they are read: not live)
+                def _loads(x):
+                    if x.ast is None or x.kind in ("def", "ENTRY", "EXIT_RETURN", "EXIT_RAISE"):
+                        return False
+                    roots = [x.ast]
+                    if x.kind == "stmt" and isinstance(x.ast, ast.Assign):
+                        roots = [x.ast.value] + [t_ for t_ in x.ast.targets if not isinstance(t_, ast.Name)]
+                    return any(isinstance(s_, ast.Name) and s_.id == name and isinstance(s_.ctx, ast.Load) for r_ in roots for s_ in ast.walk(r_))
+
+                def _stores(x):
+                    return x.kind == "stmt" and isinstance(x.ast, (ast.Assign, ast.AnnAssign)) and any(isinstance(t_, ast.Name) and t_.id == name for t_ in (x.ast.targets if isinstance(x.ast, ast.Assign) else [x.ast.target]))
+
+                live, seen_, todo_ = False, set(), [it_nodes[0]]
+                while todo_ and not live:
+                    x = todo_.pop()
+                    if x.id in seen_:
+                        continue
+                    seen_.add(x.id)
+                    if x is not it_nodes[0]:
+                        if _loads(x):
+                            live = True
+                            break
+                        if _stores(x):
+                            continue
+                    for k_, t_ in x.succ:
+                        if k_ not in ("exc", "unmatched", "handler"):
+                            todo_.append(t_)
+                if not live:
+                    continue
+                for d in flow.defs_at(it_nodes[0], name):
+                    dn = d.node
+                    if dn is None:
+                        continue
+                    ln = getattr(dn, "lineno", None)
+                    if dn.id in inner_ids:
+                        bad = bad or (assigned[name], "`%s`, set inside the loop over the bases, is not set anew before that loop for the next accessor: what the bases said about one accessor (getter) is still in force when the next one (setter, deleter) is handled" % name)
+                    elif ln is not None and not (lo <= ln <= hi):
+                        bad = bad or (dn, "`%s` is initialised once, outside the loop that handles one accessor after the other (line %s), and set inside the loop over the bases: its value carries over from one accessor to the next" % (name, ln))
+        run.check(bad is None, rule, nf.fi.qual, "the state accumulated over the bases starts afresh for every member (%d local(s) checked)" % len(assigned), bad[1] if bad else "", nf.fi.loc(bad[0]) if bad else nf.fi.loc(inner), None, first_line(bad[0].stmt) if bad and getattr(bad[0], "stmt", None) is not None else None)
